@@ -11,6 +11,7 @@
 #ifndef TLX_CONTAINER_BTREE_HEADER
 #define TLX_CONTAINER_BTREE_HEADER
 
+#include <tlx/define/verif_probe.hpp>
 #include <tlx/die/core.hpp>
 
 // *** Required Headers from the STL
@@ -2298,6 +2299,7 @@ private:
     void split_leaf_node(LeafNode* leaf, key_type* out_newkey,
                          node** out_newleaf)
     {
+        TLX_VERIF_PROBE("btree.split_leaf_node");
         TLX_BTREE_ASSERT(leaf->is_full());
 
         unsigned short mid = (leaf->slotuse >> 1);
@@ -2337,6 +2339,7 @@ private:
     void split_inner_node(InnerNode* inner, key_type* out_newkey,
                           node** out_newinner, unsigned int addslot)
     {
+        TLX_VERIF_PROBE("btree.split_inner_node");
         TLX_BTREE_ASSERT(inner->is_full());
 
         unsigned short mid = (inner->slotuse >> 1);
@@ -2382,6 +2385,7 @@ public:
     template <typename Iterator>
     void bulk_load(Iterator ibegin, Iterator iend)
     {
+        TLX_VERIF_PROBE("btree.bulk_load");
         TLX_BTREE_ASSERT(empty());
 
         stats_.size = iend - ibegin;
@@ -2753,12 +2757,14 @@ private:
 
             if (leaf->is_underflow() && !(leaf == root_ && leaf->slotuse >= 1))
             {
+                TLX_VERIF_PROBE("btree.erase_one.leaf.underflow");
                 // determine what to do about the underflow
 
                 // case : if this empty leaf is the root, then delete all nodes
                 // and set root to nullptr.
                 if (left_leaf == nullptr && right_leaf == nullptr)
                 {
+                    TLX_VERIF_PROBE("btree.erase_one.leaf.case1");
                     TLX_BTREE_ASSERT(leaf == root_);
                     TLX_BTREE_ASSERT(leaf->slotuse == 0);
 
@@ -2780,6 +2786,7 @@ private:
                 if ((left_leaf == nullptr || left_leaf->is_few()) &&
                     (right_leaf == nullptr || right_leaf->is_few()))
                 {
+                    TLX_VERIF_PROBE("btree.erase_one.leaf.case2");
                     if (left_parent == parent)
                         myres |= merge_leaves(left_leaf, leaf, left_parent);
                     else
@@ -2790,6 +2797,7 @@ private:
                 else if ((left_leaf != nullptr && left_leaf->is_few()) &&
                          (right_leaf != nullptr && !right_leaf->is_few()))
                 {
+                    TLX_VERIF_PROBE("btree.erase_one.leaf.case3");
                     if (right_parent == parent)
                         myres |= shift_left_leaf(leaf, right_leaf, right_parent,
                                                  parentslot);
@@ -2801,6 +2809,7 @@ private:
                 else if ((left_leaf != nullptr && !left_leaf->is_few()) &&
                          (right_leaf != nullptr && right_leaf->is_few()))
                 {
+                    TLX_VERIF_PROBE("btree.erase_one.leaf.case4");
                     if (left_parent == parent)
                         shift_right_leaf(left_leaf, leaf, left_parent,
                                          parentslot - 1);
@@ -2811,6 +2820,7 @@ private:
                 // parent, choose the leaf with more data
                 else if (left_parent == right_parent)
                 {
+                    TLX_VERIF_PROBE("btree.erase_one.leaf.case5");
                     if (left_leaf->slotuse <= right_leaf->slotuse)
                         myres |= shift_left_leaf(leaf, right_leaf, right_parent,
                                                  parentslot);
@@ -2820,6 +2830,7 @@ private:
                 }
                 else
                 {
+                    TLX_VERIF_PROBE("btree.erase_one.leaf.case6");
                     if (left_parent == parent)
                         shift_right_leaf(left_leaf, leaf, left_parent,
                                          parentslot - 1);
@@ -2932,10 +2943,12 @@ private:
 
         if (inner->is_underflow() && !(inner == root_ && inner->slotuse >= 1))
         {
+            TLX_VERIF_PROBE("btree.erase_one.inner.underflow");
             // case: the inner node is the root and has just one child. that
             // child becomes the new root
             if (left_inner == nullptr && right_inner == nullptr)
             {
+                TLX_VERIF_PROBE("btree.erase_one.inner.case1");
                 TLX_BTREE_ASSERT(inner == root_);
                 TLX_BTREE_ASSERT(inner->slotuse == 0);
 
@@ -2952,6 +2965,7 @@ private:
             if ((left_inner == nullptr || left_inner->is_few()) &&
                 (right_inner == nullptr || right_inner->is_few()))
             {
+                TLX_VERIF_PROBE("btree.erase_one.inner.case2");
                 if (left_parent == parent)
                     myres |= merge_inner(left_inner, inner, left_parent,
                                          parentslot - 1);
@@ -2964,6 +2978,7 @@ private:
             else if ((left_inner != nullptr && left_inner->is_few()) &&
                      (right_inner != nullptr && !right_inner->is_few()))
             {
+                TLX_VERIF_PROBE("btree.erase_one.inner.case3");
                 if (right_parent == parent)
                     shift_left_inner(inner, right_inner, right_parent,
                                      parentslot);
@@ -2976,6 +2991,7 @@ private:
             else if ((left_inner != nullptr && !left_inner->is_few()) &&
                      (right_inner != nullptr && right_inner->is_few()))
             {
+                TLX_VERIF_PROBE("btree.erase_one.inner.case4");
                 if (left_parent == parent)
                     shift_right_inner(left_inner, inner, left_parent,
                                       parentslot - 1);
@@ -2987,6 +3003,7 @@ private:
             // parent, choose the leaf with more data
             else if (left_parent == right_parent)
             {
+                TLX_VERIF_PROBE("btree.erase_one.inner.case5");
                 if (left_inner->slotuse <= right_inner->slotuse)
                     shift_left_inner(inner, right_inner, right_parent,
                                      parentslot);
@@ -2996,6 +3013,7 @@ private:
             }
             else
             {
+                TLX_VERIF_PROBE("btree.erase_one.inner.case6");
                 if (left_parent == parent)
                     shift_right_inner(left_inner, inner, left_parent,
                                       parentslot - 1);
@@ -3088,12 +3106,14 @@ private:
 
             if (leaf->is_underflow() && !(leaf == root_ && leaf->slotuse >= 1))
             {
+                TLX_VERIF_PROBE("btree.erase_iter.leaf.underflow");
                 // determine what to do about the underflow
 
                 // case : if this empty leaf is the root, then delete all nodes
                 // and set root to nullptr.
                 if (left_leaf == nullptr && right_leaf == nullptr)
                 {
+                    TLX_VERIF_PROBE("btree.erase_iter.leaf.case1");
                     TLX_BTREE_ASSERT(leaf == root_);
                     TLX_BTREE_ASSERT(leaf->slotuse == 0);
 
@@ -3115,6 +3135,7 @@ private:
                 if ((left_leaf == nullptr || left_leaf->is_few()) &&
                     (right_leaf == nullptr || right_leaf->is_few()))
                 {
+                    TLX_VERIF_PROBE("btree.erase_iter.leaf.case2");
                     if (left_parent == parent)
                         myres |= merge_leaves(left_leaf, leaf, left_parent);
                     else
@@ -3125,6 +3146,7 @@ private:
                 else if ((left_leaf != nullptr && left_leaf->is_few()) &&
                          (right_leaf != nullptr && !right_leaf->is_few()))
                 {
+                    TLX_VERIF_PROBE("btree.erase_iter.leaf.case3");
                     if (right_parent == parent)
                     {
                         myres |= shift_left_leaf(leaf, right_leaf, right_parent,
@@ -3140,6 +3162,7 @@ private:
                 else if ((left_leaf != nullptr && !left_leaf->is_few()) &&
                          (right_leaf != nullptr && right_leaf->is_few()))
                 {
+                    TLX_VERIF_PROBE("btree.erase_iter.leaf.case4");
                     if (left_parent == parent)
                     {
                         shift_right_leaf(left_leaf, leaf, left_parent,
@@ -3154,6 +3177,7 @@ private:
                 // parent, choose the leaf with more data
                 else if (left_parent == right_parent)
                 {
+                    TLX_VERIF_PROBE("btree.erase_iter.leaf.case5");
                     if (left_leaf->slotuse <= right_leaf->slotuse)
                     {
                         myres |= shift_left_leaf(leaf, right_leaf, right_parent,
@@ -3167,6 +3191,7 @@ private:
                 }
                 else
                 {
+                    TLX_VERIF_PROBE("btree.erase_iter.leaf.case6");
                     if (left_parent == parent)
                     {
                         shift_right_leaf(left_leaf, leaf, left_parent,
@@ -3302,10 +3327,12 @@ private:
             if (inner->is_underflow() &&
                 !(inner == root_ && inner->slotuse >= 1))
             {
+                TLX_VERIF_PROBE("btree.erase_iter.inner.underflow");
                 // case: the inner node is the root and has just one
                 // child. that child becomes the new root
                 if (left_inner == nullptr && right_inner == nullptr)
                 {
+                    TLX_VERIF_PROBE("btree.erase_iter.inner.case1");
                     TLX_BTREE_ASSERT(inner == root_);
                     TLX_BTREE_ASSERT(inner->slotuse == 0);
 
@@ -3322,6 +3349,7 @@ private:
                 if ((left_inner == nullptr || left_inner->is_few()) &&
                     (right_inner == nullptr || right_inner->is_few()))
                 {
+                    TLX_VERIF_PROBE("btree.erase_iter.inner.case2");
                     if (left_parent == parent)
                     {
                         myres |= merge_inner(left_inner, inner, left_parent,
@@ -3338,6 +3366,7 @@ private:
                 else if ((left_inner != nullptr && left_inner->is_few()) &&
                          (right_inner != nullptr && !right_inner->is_few()))
                 {
+                    TLX_VERIF_PROBE("btree.erase_iter.inner.case3");
                     if (right_parent == parent)
                     {
                         shift_left_inner(inner, right_inner, right_parent,
@@ -3354,6 +3383,7 @@ private:
                 else if ((left_inner != nullptr && !left_inner->is_few()) &&
                          (right_inner != nullptr && right_inner->is_few()))
                 {
+                    TLX_VERIF_PROBE("btree.erase_iter.inner.case4");
                     if (left_parent == parent)
                     {
                         shift_right_inner(left_inner, inner, left_parent,
@@ -3369,6 +3399,7 @@ private:
                 // parent, choose the leaf with more data
                 else if (left_parent == right_parent)
                 {
+                    TLX_VERIF_PROBE("btree.erase_iter.inner.case5");
                     if (left_inner->slotuse <= right_inner->slotuse)
                     {
                         shift_left_inner(inner, right_inner, right_parent,
@@ -3382,6 +3413,7 @@ private:
                 }
                 else
                 {
+                    TLX_VERIF_PROBE("btree.erase_iter.inner.case6");
                     if (left_parent == parent)
                     {
                         shift_right_inner(left_inner, inner, left_parent,
@@ -3403,6 +3435,7 @@ private:
     //! by the calling parent node.
     result_t merge_leaves(LeafNode* left, LeafNode* right, InnerNode* parent)
     {
+        TLX_VERIF_PROBE("btree.merge_leaves");
         TLX_BTREE_PRINT("Merge leaf nodes " << left << " and " << right
                                             << " with common parent " << parent
                                             << ".");
@@ -3435,6 +3468,7 @@ private:
     static result_t merge_inner(InnerNode* left, InnerNode* right,
                                 InnerNode* parent, unsigned int parentslot)
     {
+        TLX_VERIF_PROBE("btree.merge_inner");
         TLX_BTREE_PRINT("Merge inner nodes " << left << " and " << right
                                              << " with common parent " << parent
                                              << ".");
@@ -3483,6 +3517,7 @@ private:
     static result_t shift_left_leaf(LeafNode* left, LeafNode* right,
                                     InnerNode* parent, unsigned int parentslot)
     {
+        TLX_VERIF_PROBE("btree.shift_left_leaf");
         TLX_BTREE_ASSERT(left->is_leafnode() && right->is_leafnode());
         TLX_BTREE_ASSERT(parent->level == 1);
 
@@ -3533,6 +3568,7 @@ private:
     static void shift_left_inner(InnerNode* left, InnerNode* right,
                                  InnerNode* parent, unsigned int parentslot)
     {
+        TLX_VERIF_PROBE("btree.shift_left_inner");
         TLX_BTREE_ASSERT(left->level == right->level);
         TLX_BTREE_ASSERT(parent->level == left->level + 1);
 
@@ -3597,6 +3633,7 @@ private:
     static void shift_right_leaf(LeafNode* left, LeafNode* right,
                                  InnerNode* parent, unsigned int parentslot)
     {
+        TLX_VERIF_PROBE("btree.shift_right_leaf");
         TLX_BTREE_ASSERT(left->is_leafnode() && right->is_leafnode());
         TLX_BTREE_ASSERT(parent->level == 1);
 
@@ -3653,6 +3690,7 @@ private:
     static void shift_right_inner(InnerNode* left, InnerNode* right,
                                   InnerNode* parent, unsigned int parentslot)
     {
+        TLX_VERIF_PROBE("btree.shift_right_inner");
         TLX_BTREE_ASSERT(left->level == right->level);
         TLX_BTREE_ASSERT(parent->level == left->level + 1);
 
